@@ -247,6 +247,35 @@ func (rep *Report) finish(E *Engine, prop string, cfg *PropCfg, tier string, see
 		writeFile(rp, sb.String())
 		lines = append(lines, fmt.Sprintf("VIOLATION property=%s replay=%s obligation=%s%s", prop, rp, o.Name, suffix))
 	}
+	// a bounded stand-in reports an input of a recorded finding as "KNOWN-INPUT <id> <input class>": it is a
+	// KNOWN-FINDING when KNOWN_FINDINGS.txt lists that finding for this property and stand-in
+	// (obligation=bounded:<id>), a violation otherwise
+	for bi := range rep.Bounded {
+		b := &rep.Bounded[bi]
+		for _, ln := range strings.Split(b.Output, "\n") {
+			ln = strings.TrimSpace(ln)
+			i := strings.Index(ln, "KNOWN-INPUT ")
+			if i < 0 {
+				continue
+			}
+			fs := strings.SplitN(ln[i+len("KNOWN-INPUT "):], " ", 2)
+			id, what := fs[0], ""
+			if len(fs) > 1 {
+				what = fs[1]
+			}
+			listed := false
+			for _, k := range known {
+				if k.Prop == prop && k.ID == id && k.Obligation == "bounded:"+id {
+					listed = true
+					knownHits = append(knownHits, fmt.Sprintf("KNOWN-FINDING: property=%s %s: %s [%s; input %s]", prop, k.ID, k.What, b.Name, what))
+				}
+			}
+			if !listed {
+				b.OK = false
+				b.Output += "\ninput class " + id + " is not listed in KNOWN_FINDINGS.txt for " + prop + "\n"
+			}
+		}
+	}
 	for _, b := range rep.Bounded {
 		if !b.OK {
 			violations++
